@@ -1,6 +1,7 @@
 (* C06/ProofsMuc.v — lemmas about the MUC join/leave transition system of
-   C06/ModelExt.v (pinned behaviour of muc/muc.go HandlePresence and
-   muc/room.go JoinPresence / LeavePresence). *)
+   C06/ModelExt.v (muc/muc.go HandlePresence, muc/room.go JoinPresence /
+   LeavePresence; [muc_step true] is the code, [muc_step false] the pinned
+   design with an unbuffered depart channel). *)
 From Coq Require Import List Arith NArith Bool Lia.
 Import ListNotations.
 From XV Require Import lib.Lts C06.Model C06.ModelExt C06.Proofs.
@@ -9,7 +10,8 @@ Lemma mcall_step_calls s i f s' :
   mcall_step s i f = Some s' ->
   exists c c', nth_error (mu_calls s) i = Some c /\ f c = Some c' /\
                mu_calls s' = upd (mu_calls s) i c' /\ mu_h s' = mu_h s /\
-               mu_joinbuf s' = mu_joinbuf s /\ mu_gone s' = mu_gone s.
+               mu_joinbuf s' = mu_joinbuf s /\ mu_gone s' = mu_gone s /\
+               mu_dtok s' = mu_dtok s /\ mu_drained s' = mu_drained s /\ mu_lost s' = mu_lost s.
 Proof.
   unfold mcall_step. destruct (nth_error (mu_calls s) i) as [c|] eqn:Hi; [|discriminate].
   destruct (f c) as [c'|] eqn:Hf; [|discriminate]. intro H. injection H as <-.
@@ -19,7 +21,7 @@ Qed.
 (* how one step can change a call: kind fixed, cancellation and the error
    offer only ever turn true, the program counter stays or moves forward *)
 Definition mcall_succ (l : muclabel) (i : nat) (c c' : mcall) : Prop :=
-  m_kind c' = m_kind c /\
+  (m_kind c' = m_kind c /\ m_pre c' = m_pre c) /\
   (m_canc c = true -> m_canc c' = true) /\
   (m_err c = true -> m_err c' = true) /\
   (m_pc c' = m_pc c \/
@@ -27,14 +29,17 @@ Definition mcall_succ (l : muclabel) (i : nat) (c c' : mcall) : Prop :=
    (m_pc c = MWait /\ m_pc c' = MRet MCtxErr /\ m_canc c = true) \/
    (m_pc c = MWait /\ m_pc c' = MRet MErr /\ m_err c = true) \/
    (m_pc c = MWait /\ m_pc c' = MRet MJoined /\ l = MJoinRecv i) \/
-   (m_pc c = MWait /\ m_pc c' = MRet MLeft /\ l = MDepartTo i /\ m_kind c = MLeave)).
+   (m_pc c = MWait /\ m_pc c' = MRet MLeft /\ (l = MDepartTo i \/ l = MDepartRecv i) /\ m_kind c = MLeave)).
 
 Lemma mcall_succ_refl l i c : mcall_succ l i c c.
 Proof. unfold mcall_succ. auto. Qed.
 
+Section Fx.
+Variable fx : bool.
+
 (* the shape of a step on the list of calls *)
 Lemma muc_step_shape s l s' :
-  muc_step s l = Some s' ->
+  muc_step fx s l = Some s' ->
   mu_calls s' = mu_calls s \/
   (exists i c c', nth_error (mu_calls s) i = Some c /\ mu_calls s' = upd (mu_calls s) i c' /\
                   mcall_succ l i c c') \/
@@ -81,18 +86,30 @@ Proof.
     destruct (mu_gone s); try discriminate. injection H as <-. left. cbn. auto.
   - destruct (mu_h s); try discriminate.
     destruct (nth_error (mu_calls s) l) as [x|] eqn:Hl; [|discriminate].
-    destruct (waiting_leave x) eqn:Ew; [|discriminate]. injection H as <-. cbn.
+    destruct (waiting_leave x) eqn:Ew; [|discriminate]. destruct (mu_dtok s); [discriminate|].
+    injection H as <-. cbn.
     unfold waiting_leave in Ew. destruct (m_kind x) eqn:Ek; try discriminate.
     destruct (m_pc x) eqn:E; try discriminate.
     right. left. exists l, x. eexists. split; [exact Hl|]. split; [reflexivity|].
     unfold mcall_succ. cbn. rewrite E. repeat split; auto 12.
-  - destruct (mu_h s); try discriminate. destruct (existsb waiting_leave (mu_calls s)); [discriminate|].
+  - destruct (mu_h s); try discriminate.
+    destruct (fx && negb (mu_dtok s) && negb (existsb waiting_leave (mu_calls s))); [|discriminate].
     injection H as <-. left. reflexivity.
+  - destruct (mu_h s); try discriminate.
+    destruct (if fx then mu_dtok s else negb (existsb waiting_leave (mu_calls s))); [|discriminate].
+    injection H as <-. left. reflexivity.
+  - destruct (nth_error (mu_calls s) l) as [x|] eqn:Hl; [|discriminate].
+    destruct (waiting_leave x) eqn:Ew; [|discriminate]. destruct (mu_dtok s); [|discriminate].
+    injection H as <-. cbn.
+    unfold waiting_leave in Ew. destruct (m_kind x) eqn:Ek; try discriminate.
+    destruct (m_pc x) eqn:E; try discriminate.
+    right. left. exists l, x. eexists. split; [exact Hl|]. split; [reflexivity|].
+    unfold mcall_succ. cbn. rewrite E. repeat split; auto 12.
 Qed.
 
 (* forward: every call survives a step and moves by [mcall_succ] *)
 Lemma muc_step_succ s l s' i c :
-  muc_step s l = Some s' -> nth_error (mu_calls s) i = Some c ->
+  muc_step fx s l = Some s' -> nth_error (mu_calls s) i = Some c ->
   exists c', nth_error (mu_calls s') i = Some c' /\ mcall_succ l i c c'.
 Proof.
   intros H Hi. destruct (muc_step_shape s l s' H) as [E|[[k [x [x' [Hk [E S]]]]]|[c0 [E _]]]]; rewrite E.
@@ -106,7 +123,7 @@ Qed.
 (* backward: every call of the new state is an old one moved by
    [mcall_succ], or a freshly spawned one *)
 Lemma muc_step_pred s l s' i c' :
-  muc_step s l = Some s' -> nth_error (mu_calls s') i = Some c' ->
+  muc_step fx s l = Some s' -> nth_error (mu_calls s') i = Some c' ->
   (exists c, nth_error (mu_calls s) i = Some c /\ mcall_succ l i c c') \/
   (m_pc c' = MSpawned /\ i = length (mu_calls s) /\ (m_kind c' = MJoin <-> mu_calls s = [])).
 Proof.
@@ -128,14 +145,14 @@ Proof.
 Qed.
 
 Lemma muc_ret_stable_run tr : forall s s' i c o,
-  run muc_step s tr = Some s' -> nth_error (mu_calls s) i = Some c -> m_pc c = MRet o ->
+  run (muc_step fx) s tr = Some s' -> nth_error (mu_calls s) i = Some c -> m_pc c = MRet o ->
   exists c', nth_error (mu_calls s') i = Some c' /\ m_pc c' = MRet o /\ m_kind c' = m_kind c.
 Proof.
   induction tr as [|l tr IH]; intros s s' i c o R Hi Hp; cbn in R.
   - injection R as <-. eauto.
-  - destruct (muc_step s l) as [s1|] eqn:E; [|discriminate].
+  - destruct (muc_step fx s l) as [s1|] eqn:E; [|discriminate].
     destruct (muc_step_succ s l s1 i c E Hi) as [c1 [H1 S]].
-    pose proof (mcall_succ_ret _ _ _ _ _ S Hp) as P1. destruct S as (K & _).
+    pose proof (mcall_succ_ret _ _ _ _ _ S Hp) as P1. destruct S as ((K & _) & _).
     destruct (IH s1 s' i c1 o R H1 P1) as [c' [A [B C]]]. exists c'. repeat split; congruence.
 Qed.
 
@@ -155,6 +172,8 @@ Record MucInv (s : mucstate) : Prop := {
   mi_buf : forall j, mu_joinbuf s = Some j -> j = 0 /\ mu_calls s <> [];
   mi_taken : forall j, mu_h s = MHTaken j -> j = 0 /\ mu_calls s <> [];
   mi_unavail : mu_h s = MHUnavail -> mu_gone s = true;
+  mi_tok : mu_dtok s = true -> mu_gone s = true;
+  mi_fx : mu_dtok s = true -> fx = true;
   mi_out : forall i c, nth_error (mu_calls s) i = Some c -> mout_ok (mu_gone s) c
 }.
 
@@ -165,10 +184,10 @@ Qed.
 
 Lemma mout_ok_succ l i c c' g g' :
   mcall_succ l i c c' -> mout_ok g c -> (g = true -> g' = true) ->
-  (l = MJoinRecv i -> m_kind c = MJoin) -> (l = MDepartTo i -> g' = true) ->
+  (l = MJoinRecv i -> m_kind c = MJoin) -> ((l = MDepartTo i \/ l = MDepartRecv i) -> g' = true) ->
   mout_ok g' c'.
 Proof.
-  intros (K & Cc & Ce & P) O G J D. unfold mout_ok in *.
+  intros ((K & Kp) & Cc & Ce & P) O G J D. unfold mout_ok in *.
   destruct P as [P|[P|[P|[P|[P|P]]]]].
   - rewrite P. destruct (m_pc c) as [| |o]; auto. destruct o; auto.
     + congruence.
@@ -180,133 +199,129 @@ Proof.
   - destruct P as (_ & P & L & Kl). rewrite P. split; [congruence|auto].
 Qed.
 
-Lemma muc_step_gone s l s' : muc_step s l = Some s' -> mu_gone s = true -> mu_gone s' = true.
+Ltac break_step H := repeat match type of H with
+  | context [match ?x with _ => _ end] => destruct x eqn:?; try discriminate
+  end.
+
+Ltac fin_fields := cbn; repeat match goal with |- _ /\ _ => split | |- _ <-> _ => split end;
+  intros;
+  repeat match goal with
+  | H : _ && _ = true |- _ => apply andb_prop in H; destruct H
+  | H : negb _ = true |- _ => apply negb_true_iff in H
+  | E : fx = true, H : context [if fx then _ else _] |- _ => rewrite E in H
+  end;
+  try reflexivity; try assumption; try discriminate; try congruence.
+
+(* what a step does to the parts of the state other than the calls *)
+Lemma muc_step_fields s l s' :
+  muc_step fx s l = Some s' ->
+  match l with
+  | MUnavailArrive =>
+      mu_h s = MHIdle /\ mu_gone s = false /\ mu_h s' = MHUnavail /\ mu_gone s' = true /\
+      mu_dtok s' = mu_dtok s /\ mu_drained s' = mu_drained s /\ mu_lost s' = mu_lost s
+  | MDepartTo _ =>
+      mu_h s = MHUnavail /\ mu_h s' = MHIdle /\ mu_gone s' = mu_gone s /\ mu_dtok s = false /\
+      mu_dtok s' = false /\ mu_drained s' = mu_drained s /\ mu_lost s' = mu_lost s
+  | MDepartKept =>
+      fx = true /\ mu_h s = MHUnavail /\ mu_h s' = MHIdle /\ mu_gone s' = mu_gone s /\ mu_dtok s = false /\
+      mu_dtok s' = true /\ mu_drained s' = mu_drained s /\ mu_lost s' = mu_lost s
+  | MDepartLost =>
+      mu_h s = MHUnavail /\ mu_h s' = MHIdle /\ mu_gone s' = mu_gone s /\ (fx = true -> mu_dtok s = true) /\
+      mu_dtok s' = mu_dtok s /\ mu_drained s' = mu_drained s /\ mu_lost s' = S (mu_lost s)
+  | MDepartRecv _ =>
+      mu_h s' = mu_h s /\ mu_gone s' = mu_gone s /\ mu_dtok s = true /\ mu_dtok s' = false /\
+      mu_drained s' = mu_drained s /\ mu_lost s' = mu_lost s
+  | MStartLeave =>
+      mu_h s' = mu_h s /\ mu_gone s' = mu_gone s /\ mu_dtok s' = false /\
+      mu_drained s' = (if mu_dtok s then S (mu_drained s) else mu_drained s) /\ mu_lost s' = mu_lost s
+  | _ =>
+      mu_gone s' = mu_gone s /\ mu_dtok s' = mu_dtok s /\ mu_drained s' = mu_drained s /\
+      mu_lost s' = mu_lost s /\ (mu_h s' = MHUnavail <-> mu_h s = MHUnavail)
+  end.
 Proof.
-  intros H G. destruct l; cbn [muc_step] in H;
-    try (destruct (mcall_step_calls _ _ _ _ H) as [? [? [_ [_ [_ [_ [_ E]]]]]]]; congruence).
-  - destruct (mu_calls s); [|discriminate]. destruct (mu_joinbuf s); [discriminate|]. injection H as <-. exact G.
-  - destruct (mu_calls s); [discriminate|]. injection H as <-. exact G.
-  - destruct (mu_h s); try discriminate. destruct (mu_calls s); try discriminate.
-    rewrite G in H. discriminate.
-  - destruct (mu_h s); try discriminate. destruct (mu_joinbuf s); injection H as <-; exact G.
-  - destruct (mu_h s) as [| |j'|]; try discriminate. destruct (Nat.eqb j j'); [|discriminate].
-    destruct (nth_error (mu_calls s) j) as [x|]; [|discriminate].
-    destruct (m_pc x); try discriminate. injection H as <-. exact G.
-  - destruct (mu_h s) as [| |j'|]; try discriminate.
-    destruct (nth_error (mu_calls s) j') as [x|]; [|discriminate].
-    destruct (mctx_done x); [|discriminate]. injection H as <-. exact G.
-  - destruct (mu_h s); try discriminate. destruct (mu_calls s); try discriminate.
-    rewrite G in H. discriminate.
-  - destruct (mu_h s); try discriminate.
-    destruct (nth_error (mu_calls s) l) as [x|]; [|discriminate].
-    destruct (waiting_leave x); [|discriminate]. injection H as <-. exact G.
-  - destruct (mu_h s); try discriminate. destruct (existsb waiting_leave (mu_calls s)); [discriminate|].
-    injection H as <-. exact G.
+  intro H. destruct l; cbn [muc_step] in H;
+    try (destruct (mcall_step_calls _ _ _ _ H) as [? [? [_ [_ [_ [Eh [_ [Eg [Et [Ed El]]]]]]]]]];
+         rewrite Eh; fin_fields);
+    break_step H; injection H as <-; fin_fields.
+Qed.
+
+Lemma muc_step_gone s l s' : muc_step fx s l = Some s' -> mu_gone s = true -> mu_gone s' = true.
+Proof.
+  intros H G. pose proof (muc_step_fields s l s' H) as F.
+  destruct l; decompose [and] F; congruence.
 Qed.
 
 Lemma upd_nonnil {A} (a : list A) k (b : A) : a <> [] -> upd a k b <> [].
 Proof. intros N E. apply N. destruct a; [reflexivity|destruct k; discriminate]. Qed.
 
-(* the parts of the state other than the calls *)
-Lemma muc_step_ctl s l s' :
-  MucInv s -> muc_step s l = Some s' ->
-  (forall j, mu_joinbuf s' = Some j -> j = 0 /\ mu_calls s' <> []) /\
-  (forall j, mu_h s' = MHTaken j -> j = 0 /\ mu_calls s' <> []) /\
-  (mu_h s' = MHUnavail -> mu_gone s' = true) /\
-  (forall i, l = MJoinRecv i -> i = 0) /\
-  (forall i, l = MDepartTo i -> mu_gone s = true).
+(* join buffer, taken joinCtx, non-emptiness of the list of calls *)
+Lemma muc_step_join s l s' :
+  muc_step fx s l = Some s' ->
+  (forall j, mu_joinbuf s' = Some j -> mu_joinbuf s = Some j \/ (l = MStartJoin /\ j = 0)) /\
+  (forall j, mu_h s' = MHTaken j -> mu_h s = MHTaken j \/ (l = MTake /\ mu_joinbuf s = Some j)) /\
+  (mu_calls s <> [] -> mu_calls s' <> []) /\ (l = MStartJoin -> mu_calls s' <> []) /\
+  (forall j, l = MJoinRecv j -> mu_h s = MHTaken j).
 Proof.
-  intros [Ih Itl Ib It Iu Io] H.
-  assert (Call : forall k f, mcall_step s k f = Some s' ->
-            (forall j, mu_joinbuf s' = Some j -> j = 0 /\ mu_calls s' <> []) /\
-            (forall j, mu_h s' = MHTaken j -> j = 0 /\ mu_calls s' <> []) /\
-            (mu_h s' = MHUnavail -> mu_gone s' = true)).
-  { intros k f Hs. destruct (mcall_step_calls s k f s' Hs) as [x [x' [Hk [_ [Ec [Eh [Eb Eg]]]]]]].
-    rewrite Ec, Eh, Eb, Eg. split; [|split].
-    - intros j Hj. destruct (Ib j Hj) as [A N]. split; [exact A|apply upd_nonnil; exact N].
-    - intros j Hj. destruct (It j Hj) as [A N]. split; [exact A|apply upd_nonnil; exact N].
-    - exact Iu. }
-  assert (App : forall c0, mu_calls s ++ [c0] <> []) by (intros c0 E; destruct (mu_calls s); discriminate).
+  intro H.
+  assert (App : forall (a : list mcall) x, a ++ [x] <> []) by (intros a x E; destruct a; discriminate).
   destruct l; cbn [muc_step] in H;
-    try (destruct (Call _ _ H) as (A & B & C);
-         split; [exact A|split; [exact B|split; [exact C|split; intros; discriminate]]]).
-  - destruct (mu_calls s) eqn:E; [|discriminate]. destruct (mu_joinbuf s); [discriminate|].
-    injection H as <-. cbn.
-    split; [|split; [|split; [|split; intros; discriminate]]].
-    + intros j Hj. injection Hj as <-. split; [reflexivity|discriminate].
-    + intros j Hj. destruct (It j Hj) as [_ N]. congruence.
-    + exact Iu.
-  - destruct (mu_calls s) eqn:E; [discriminate|]. rewrite <- E in H. injection H as <-. cbn.
-    split; [|split; [|split; [|split; intros; discriminate]]].
-    + intros j Hj. destruct (Ib j Hj) as [A N]. split; [exact A|intro X; destruct (mu_calls s); discriminate].
-    + intros j Hj. destruct (It j Hj) as [A N]. split; [exact A|intro X; destruct (mu_calls s); discriminate].
-    + exact Iu.
-  - destruct (mu_h s) eqn:Eh; try discriminate. destruct (mu_calls s) eqn:E; try discriminate.
-    destruct (mu_gone s); try discriminate. injection H as <-. cbn. rewrite ?E.
-    split; [|split; [|split; [|split; intros; discriminate]]]; try (intros; discriminate).
-    exact Ib.
-  - destruct (mu_h s) eqn:Eh; try discriminate.
-    destruct (mu_joinbuf s) as [j|] eqn:Eb; injection H as <-; cbn;
-      (split; [|split; [|split; [|split; intros; discriminate]]]); try (intros; discriminate).
-    intros j0 Hj. injection Hj as <-. apply Ib. reflexivity.
-  - destruct (mu_h s) as [| |j'|] eqn:Eh; try discriminate. destruct (Nat.eqb j j') eqn:Ej; [|discriminate].
-    apply Nat.eqb_eq in Ej. subst j'.
-    destruct (nth_error (mu_calls s) j) as [x|] eqn:Hj; [|discriminate].
-    destruct (m_pc x); try discriminate. injection H as <-. cbn.
-    destruct (It j eq_refl) as [-> N].
-    split; [|split; [|split; [|split]]]; try (intros; discriminate).
-    + intros j Hb. destruct (Ib j Hb) as [A N']. split; [exact A|apply upd_nonnil; exact N'].
-    + intros i Hi. injection Hi as <-. reflexivity.
-  - destruct (mu_h s) as [| |j'|] eqn:Eh; try discriminate.
-    destruct (nth_error (mu_calls s) j') as [x|]; [|discriminate].
-    destruct (mctx_done x); [|discriminate]. injection H as <-. cbn.
-    split; [|split; [|split; [|split; intros; discriminate]]]; try (intros; discriminate).
-    exact Ib.
-  - destruct (mu_h s) eqn:Eh; try discriminate. destruct (mu_calls s) eqn:E; try discriminate.
-    destruct (mu_gone s); try discriminate. injection H as <-. cbn. rewrite ?E.
-    split; [|split; [|split; [|split; intros; discriminate]]]; try (intros; discriminate).
-    + exact Ib.
-    + reflexivity.
-  - destruct (mu_h s) eqn:Eh; try discriminate.
-    destruct (nth_error (mu_calls s) l) as [x|] eqn:Hl; [|discriminate].
-    destruct (waiting_leave x); [|discriminate]. injection H as <-. cbn.
-    split; [|split; [|split; [|split]]]; try (intros; discriminate).
-    + intros j Hb. destruct (Ib j Hb) as [A N']. split; [exact A|apply upd_nonnil; exact N'].
-    + intros _ _. apply Iu. reflexivity.
-  - destruct (mu_h s) eqn:Eh; try discriminate. destruct (existsb waiting_leave (mu_calls s)); [discriminate|].
-    injection H as <-. cbn.
-    split; [|split; [|split; [|split; intros; discriminate]]]; try (intros; discriminate).
-    exact Ib.
+    try (destruct (mcall_step_calls _ _ _ _ H) as [? [? [_ [_ [Ec [Eh [Eb _]]]]]]];
+         rewrite Ec, Eh, Eb; repeat split; intros; auto; try discriminate; apply upd_nonnil; assumption);
+    break_step H; injection H as <-; cbn;
+    repeat match goal with |- _ /\ _ => split end; intros;
+    repeat match goal with
+    | E : Nat.eqb _ _ = true |- _ => apply Nat.eqb_eq in E; subst
+    end;
+    auto; try discriminate; try congruence;
+    try (apply upd_nonnil; congruence); try apply App;
+    try (left; congruence); try (right; split; congruence).
 Qed.
 
-Theorem MucInv_step s l s' : MucInv s -> muc_step s l = Some s' -> MucInv s'.
+Theorem MucInv_step s l s' : MucInv s -> muc_step fx s l = Some s' -> MucInv s'.
 Proof.
-  intros I H. destruct (muc_step_ctl s l s' I H) as (Cb & Ct & Cu & Cj & Cd).
+  intros I H.
+  pose proof (muc_step_fields s l s' H) as F.
+  destruct (muc_step_join s l s' H) as (Jb & Jt & Jn & Js & Jr).
   pose proof (muc_step_gone s l s' H) as G.
-  destruct I as [Ih Itl Ib It Iu Io].
-  constructor; auto.
-  - intros c' Hc. destruct (muc_step_pred s l s' 0 c' H Hc) as [[c [Hc0 (K & _)]]|[_ [L Kn]]].
+  destruct I as [Ih Itl Ib It Iu Ik Ifx Io].
+  assert (Cj : forall i, l = MJoinRecv i -> i = 0).
+  { intros i ->. destruct (It i (Jr i eq_refl)) as [A _]. exact A. }
+  assert (Cd : forall i, l = MDepartTo i \/ l = MDepartRecv i -> mu_gone s = true).
+  { intros i [->| ->]; decompose [and] F; auto. }
+  constructor.
+  - intros c' Hc. destruct (muc_step_pred s l s' 0 c' H Hc) as [[c [Hc0 ((K & _) & _)]]|[_ [L Kn]]].
     + rewrite K. auto.
     + apply Kn. destruct (mu_calls s); [reflexivity|discriminate].
-  - intros i c' Hc. destruct (muc_step_pred s l s' (S i) c' H Hc) as [[c [Hc0 (K & _)]]|[_ [L Kn]]].
+  - intros i c' Hc. destruct (muc_step_pred s l s' (S i) c' H Hc) as [[c [Hc0 ((K & _) & _)]]|[_ [L Kn]]].
     + rewrite K. eauto.
     + destruct (m_kind c') eqn:Ek; [|reflexivity]. destruct Kn as [Kn _]. specialize (Kn eq_refl).
       rewrite Kn in L. discriminate.
+  - intros j Hj. destruct (Jb j Hj) as [A|[-> ->]].
+    + destruct (Ib j A) as [B N]. auto.
+    + split; [reflexivity|apply Js; reflexivity].
+  - intros j Hj. destruct (Jt j Hj) as [A|[-> A]].
+    + destruct (It j A) as [B N]. auto.
+    + destruct (Ib j A) as [B N]. auto.
+  - intro Hu. destruct l; decompose [and] F;
+      first [congruence | apply G; apply Iu; first [congruence | tauto]].
+  - intro Ht. destruct l; decompose [and] F;
+      first [congruence | apply G; apply Ik; congruence | apply G; apply Iu; congruence].
+  - intro Ht. destruct l; decompose [and] F; first [congruence | apply Ifx; congruence].
   - intros i c' Hc. destruct (muc_step_pred s l s' i c' H Hc) as [[c [Hc0 S]]|[P _]].
     + apply (mout_ok_succ l i c c' (mu_gone s) (mu_gone s') S (Io i c Hc0) G).
       * intros ->. specialize (Cj i eq_refl). subst i. auto.
-      * intros ->. apply G. apply (Cd i eq_refl).
+      * intros X. apply G. apply (Cd i X).
     + unfold mout_ok. rewrite P. exact Logic.I.
 Qed.
 
-Theorem MucInv_run tr s : run muc_step muc_init tr = Some s -> MucInv s.
+Theorem MucInv_run tr s : run (muc_step fx) muc_init tr = Some s -> MucInv s.
 Proof.
-  apply (invariant_run _ _ muc_step MucInv muc_init MucInv_init).
+  apply (invariant_run _ _ (muc_step fx) MucInv muc_init MucInv_init).
   intros s0 l s1 I H. exact (MucInv_step s0 l s1 I H).
 Qed.
 
 Lemma muc_outcome_run tr s i c o :
-  run muc_step muc_init tr = Some s -> nth_error (mu_calls s) i = Some c -> m_pc c = MRet o ->
+  run (muc_step fx) muc_init tr = Some s -> nth_error (mu_calls s) i = Some c -> m_pc c = MRet o ->
   match o with
   | MCtxErr => m_canc c = true
   | MErr => m_err c = true
@@ -322,7 +337,7 @@ Qed.
 
 (* ---- progress of the presence handler (and with it the serve loop) ---- *)
 
-Definition muc_enabled (s : mucstate) (l : muclabel) : Prop := muc_step s l <> None.
+Definition muc_enabled (s : mucstate) (l : muclabel) : Prop := muc_step fx s l <> None.
 
 Definition muc_handler_waits (s : mucstate) : Prop :=
   match mu_h s with
@@ -335,7 +350,7 @@ Definition muc_handler_waits (s : mucstate) : Prop :=
       | MWait => muc_enabled s (MJoinRecv j)
       | MRet _ => muc_enabled s MSkip
       end
-  | MHUnavail => muc_enabled s MDepartLost \/ exists l, muc_enabled s (MDepartTo l)
+  | MHUnavail => muc_enabled s MDepartLost \/ muc_enabled s MDepartKept \/ exists l, muc_enabled s (MDepartTo l)
   end.
 
 Lemma muc_handler_waits_inv s : MucInv s -> muc_handler_waits s.
@@ -352,14 +367,16 @@ Proof.
     + cbn [muc_step]. rewrite ?Eh, ?E. cbn. rewrite Ep. discriminate.
     + cbn [muc_step]. rewrite ?Eh, ?E. cbn. unfold mctx_done. rewrite Ep. cbn.
       rewrite orb_true_r. discriminate.
-  - destruct (existsb waiting_leave (mu_calls s)) eqn:Ex.
-    + right. apply existsb_exists in Ex. destruct Ex as [x [Hin Hw]].
-      apply In_nth_error in Hin. destruct Hin as [l Hl]. exists l.
-      cbn [muc_step]. rewrite ?Eh, Hl, Hw. discriminate.
-    + left. discriminate.
+  - destruct (mu_dtok s) eqn:Et.
+    + left. rewrite (mi_fx _ I Et). discriminate.
+    + destruct (existsb waiting_leave (mu_calls s)) eqn:Ex.
+      * right. right. apply existsb_exists in Ex. destruct Ex as [x [Hin Hw]].
+        apply In_nth_error in Hin. destruct Hin as [l Hl]. exists l.
+        cbn [muc_step]. rewrite ?Eh, Hl, Hw, ?Et. discriminate.
+      * destruct fx; [right; left|left]; cbn; discriminate.
 Qed.
 
-Lemma muc_handler_waits_run tr s : run muc_step muc_init tr = Some s -> muc_handler_waits s.
+Lemma muc_handler_waits_run tr s : run (muc_step fx) muc_init tr = Some s -> muc_handler_waits s.
 Proof. intro R. apply muc_handler_waits_inv. exact (MucInv_run tr s R). Qed.
 
 (* a call never gets stuck on its own *)
@@ -376,94 +393,329 @@ Proof.
   - split; intros ->; discriminate.
 Qed.
 
-(* ---- the lost depart notification (pinned behaviour) ---- *)
-
-Definition lost_depart_trace : list muclabel :=
-  [MStartJoin; MEnter 0; MAvailArrive; MTake; MJoinRecv 0; MStartLeave; MUnavailArrive; MDepartLost; MEnter 1].
+(* ---- a Leave call that nothing but its own context or an error reply can end ---- *)
 
 (* Leave call i sits in its select, the room's entry is gone, the handler is
-   idle: nothing but the call's own context or an error reply ends the call *)
+   idle and no notification is buffered *)
 Definition leave_stuck (s : mucstate) (i : nat) : Prop :=
-  mu_h s = MHIdle /\ mu_gone s = true /\
+  mu_h s = MHIdle /\ mu_gone s = true /\ mu_dtok s = false /\
   exists c, nth_error (mu_calls s) i = Some c /\ m_kind c = MLeave /\ m_pc c = MWait /\
             m_canc c = false /\ m_err c = false.
 
 Lemma leave_stuck_step s l s' i :
-  leave_stuck s i -> l <> MCancel i -> l <> MErrReply i -> muc_step s l = Some s' -> leave_stuck s' i.
+  leave_stuck s i -> l <> MCancel i -> l <> MErrReply i -> muc_step fx s l = Some s' -> leave_stuck s' i.
 Proof.
-  intros (Eh & Eg & c & Hi & Ek & Ep & Ec & Ee) N1 N2 H.
-  assert (Call : forall k f, mcall_step s k f = Some s' ->
-            (forall x x', f x = Some x' -> k = i -> m_kind x' = m_kind x /\ (m_pc x = MWait -> m_canc x = false -> m_err x = false ->
-                                             m_pc x' = MWait /\ m_canc x' = false /\ m_err x' = false)) ->
-            leave_stuck s' i).
-  { intros k f Hs Hf. destruct (mcall_step_calls s k f s' Hs) as [x [x' [Hk [Hfx [Ecs [Eh' [_ Eg']]]]]]].
-    split; [congruence|]. split; [congruence|]. rewrite Ecs.
-    destruct (Nat.eq_dec k i) as [->|Nk].
-    - rewrite Hk in Hi. injection Hi as ->. destruct (Hf c x' Hfx eq_refl) as [K P].
-      destruct (P Ep Ec Ee) as (A & B & C). exists x'. split; [eapply nth_upd_eq; eauto|].
-      repeat split; congruence.
-    - exists c. split; [rewrite nth_upd_neq by congruence; exact Hi|auto]. }
-  destruct l; cbn [muc_step] in H; try (rewrite Eh in H; discriminate).
-  - destruct (mu_calls s); [destruct (nth_nil _ _ Hi)|discriminate].
-  - destruct (mu_calls s) eqn:E; [discriminate|]. rewrite <- E in *. injection H as <-. cbn.
-    split; [exact Eh|]. split; [exact Eg|]. exists c. split; [apply nth_app_old; exact Hi|auto].
-  - eapply Call; eauto. intros x x' Hf ->. cbv beta in Hf. destruct (m_pc x) eqn:E; try discriminate.
-    injection Hf as <-. cbn. split; [reflexivity|]. intros. discriminate.
-  - eapply Call; eauto. intros x x' Hf ->. congruence.
-  - eapply Call; eauto. intros x x' Hf ->. cbv beta in Hf. destruct (m_pc x) eqn:E; try discriminate.
-    destruct (m_canc x) eqn:Ecx; try discriminate. injection Hf as <-. cbn.
-    split; [reflexivity|]. intros. discriminate.
-  - eapply Call; eauto. intros x x' Hf ->. congruence.
-  - eapply Call; eauto. intros x x' Hf ->. cbv beta in Hf. destruct (m_pc x) eqn:E; try discriminate.
-    destruct (m_err x) eqn:Eex; try discriminate. injection Hf as <-. cbn.
-    split; [reflexivity|]. intros. discriminate.
-  - rewrite Eh in H. destruct (mu_calls s); try discriminate. rewrite Eg in H. discriminate.
-  - rewrite Eh in H. destruct (mu_calls s); try discriminate. rewrite Eg in H. discriminate.
+  intros (Eh & Eg & Et & c & Hi & Ek & Ep & Ec & Ee) N1 N2 H.
+  pose proof (muc_step_fields s l s' H) as F.
+  destruct (muc_step_succ s l s' i c H Hi) as [c' [Hi' ((K & _) & Cc & Ce & P)]].
+  assert (Hh : mu_h s' = MHIdle /\ mu_gone s' = true /\ mu_dtok s' = false /\
+               m_pc c' = MWait /\ m_canc c' = false /\ m_err c' = false).
+  { destruct l; cbn [muc_step] in H;
+      try (destruct (mcall_step_calls _ _ _ _ H) as [x [x' [Hk [Hf [Ecs [Eh' [_ [Eg' [Et' _]]]]]]]]];
+           rewrite Ecs in Hi';
+           split; [congruence|]; split; [congruence|]; split; [congruence|];
+           destruct (nth_upd_inv _ _ _ _ _ _ Hk Hi') as [[-> ->]|[Nk Hy]];
+           [rewrite Hk in Hi; injection Hi as ->; cbv beta in Hf;
+            repeat match type of Hf with context [match ?y with _ => _ end] => destruct y eqn:?; try discriminate end;
+            try (injection Hf as <-; cbn; repeat split; congruence); congruence
+           |rewrite Hi in Hy; injection Hy as <-; repeat split; assumption]);
+      try (rewrite Eh in H; discriminate).
+    - destruct (mu_calls s); [destruct (nth_nil _ _ Hi)|discriminate].
+    - destruct (mu_calls s) eqn:E; [discriminate|]. rewrite <- E in *. injection H as <-. cbn in *.
+      rewrite (nth_app_old _ _ _ _ Hi) in Hi'. injection Hi' as <-. repeat split; assumption.
+    - rewrite Eh in H. destruct (mu_calls s); try discriminate. rewrite Eg in H. discriminate.
+    - rewrite Eh in H. destruct (mu_calls s); try discriminate. rewrite Eg in H. discriminate.
+    - destruct (nth_error (mu_calls s) l) as [x|]; [|discriminate].
+      rewrite Et, andb_false_r in H. discriminate. }
+  destruct Hh as (A & B & C & D & E & G).
+  repeat split; auto. exists c'. repeat split; auto. congruence.
 Qed.
 
 Lemma leave_stuck_run tr : forall s s' i,
   leave_stuck s i -> ~ In (MCancel i) tr -> ~ In (MErrReply i) tr ->
-  run muc_step s tr = Some s' -> leave_stuck s' i.
+  run (muc_step fx) s tr = Some s' -> leave_stuck s' i.
 Proof.
   induction tr as [|l tr IH]; intros s s' i St N1 N2 R; cbn in R.
   - injection R as <-. exact St.
-  - destruct (muc_step s l) as [s1|] eqn:E; [|discriminate].
+  - destruct (muc_step fx s l) as [s1|] eqn:E; [|discriminate].
     apply (IH s1 s' i); auto.
     + eapply leave_stuck_step; eauto; intros ->; [apply N1|apply N2]; left; reflexivity.
     + intro A. apply N1. right. exact A.
     + intro A. apply N2. right. exact A.
 Qed.
 
-Lemma muc_lost_depart :
-  exists s, run muc_step muc_init lost_depart_trace = Some s /\ leave_stuck s 1 /\ mu_lost s = 1 /\
-    forall tr s', ~ In (MCancel 1) tr -> ~ In (MErrReply 1) tr -> run muc_step s tr = Some s' ->
+(* where a Leave call becomes "left" *)
+Lemma left_origin s l s' i c' :
+  muc_step fx s l = Some s' -> nth_error (mu_calls s') i = Some c' -> m_pc c' = MRet MLeft ->
+  (exists c, nth_error (mu_calls s) i = Some c /\ m_pc c = MRet MLeft) \/ l = MDepartTo i \/ l = MDepartRecv i.
+Proof.
+  intros H Hi Hp. destruct (muc_step_pred s l s' i c' H Hi) as [[c [Hc (_ & _ & _ & P)]]|[P _]]; [|congruence].
+  destruct P as [P|[P|[P|[P|[P|P]]]]].
+  - left. exists c. split; [exact Hc|congruence].
+  - destruct P as (_ & P). congruence.
+  - destruct P as (_ & P & _). congruence.
+  - destruct P as (_ & P & _). congruence.
+  - destruct P as (_ & P & _). congruence.
+  - destruct P as (_ & _ & L & _). right. exact L.
+Qed.
+
+Lemma left_persist s l s' i c :
+  muc_step fx s l = Some s' -> nth_error (mu_calls s) i = Some c -> m_pc c = MRet MLeft ->
+  exists c', nth_error (mu_calls s') i = Some c' /\ m_pc c' = MRet MLeft /\ m_kind c' = m_kind c.
+Proof.
+  intros H Hi Hp. destruct (muc_step_succ s l s' i c H Hi) as [c' [Hc S]].
+  exists c'. split; [exact Hc|]. split; [eapply mcall_succ_ret; eauto|apply S].
+Qed.
+
+Lemma depart_step_calls s l s' i :
+  muc_step fx s l = Some s' -> l = MDepartTo i \/ l = MDepartRecv i ->
+  exists x, nth_error (mu_calls s) i = Some x /\ waiting_leave x = true /\
+            mu_calls s' = upd (mu_calls s) i (set_mpc x (MRet MLeft)).
+Proof.
+  intros H [->| ->]; cbn [muc_step] in H; break_step H; injection H as <-; cbn;
+    match goal with E : _ && _ = true |- _ => apply andb_prop in E; destruct E end; eauto.
+Qed.
+
+Lemma startleave_calls s s' :
+  muc_step fx s MStartLeave = Some s' ->
+  mu_calls s' = mu_calls s ++ [mkmcall MLeave false MSpawned false (negb (mu_gone s))].
+Proof.
+  intro H. cbn [muc_step] in H. destruct (mu_calls s) eqn:E; [discriminate|]. rewrite <- E in H |- *.
+  injection H as <-. reflexivity.
+Qed.
+
+End Fx.
+
+(* ---- the pinned design loses the notification ---- *)
+
+Definition lost_depart_trace : list muclabel :=
+  [MStartJoin; MEnter 0; MAvailArrive; MTake; MJoinRecv 0; MStartLeave; MUnavailArrive; MDepartLost; MEnter 1].
+
+Lemma muc_lost_depart_pinned :
+  exists s, run (muc_step false) muc_init lost_depart_trace = Some s /\ leave_stuck s 1 /\ mu_lost s = 1 /\
+    forall tr s', ~ In (MCancel 1) tr -> ~ In (MErrReply 1) tr -> run (muc_step false) s tr = Some s' ->
       exists c, nth_error (mu_calls s') 1 = Some c /\ m_pc c = MWait.
 Proof.
   eexists. split; [vm_compute; reflexivity|]. split.
   - repeat split. eexists. split; [reflexivity|]. repeat split.
   - split; [reflexivity|]. intros tr s' N1 N2 R.
-    assert (St : leave_stuck (mkmuc [mkmcall MJoin false (MRet MJoined) false; mkmcall MLeave false MWait false]
-                                    None MHIdle 0 1 true) 1).
+    assert (St : leave_stuck (mkmuc [mkmcall MJoin false (MRet MJoined) false true; mkmcall MLeave false MWait false true]
+                                    None MHIdle 0 1 true false 0) 1).
     { repeat split. eexists. split; [reflexivity|]. repeat split. }
-    destruct (leave_stuck_run tr _ s' 1 St N1 N2 R) as (_ & _ & c & Hc & _ & Hp & _). eauto.
+    destruct (leave_stuck_run false tr _ s' 1 St N1 N2 R) as (_ & _ & _ & c & Hc & _ & Hp & _). eauto.
 Qed.
 
-(* in the ordinary order (the caller is in its select when the presence is
-   handled) the same Leave call returns *)
-Lemma muc_depart_delivered :
-  exists s c, run muc_step muc_init
-    [MStartJoin; MEnter 0; MAvailArrive; MTake; MJoinRecv 0; MStartLeave; MEnter 1; MUnavailArrive; MDepartTo 1] = Some s /\
-    nth_error (mu_calls s) 1 = Some c /\ m_pc c = MRet MLeft.
-Proof. eexists. eexists. split; [vm_compute; reflexivity|]. split; reflexivity. Qed.
+(* the same schedule on the code: the notification is kept and taken *)
+Lemma muc_depart_kept_then_taken :
+  exists s c, run (muc_step true) muc_init
+    [MStartJoin; MEnter 0; MAvailArrive; MTake; MJoinRecv 0; MStartLeave; MUnavailArrive; MDepartKept; MEnter 1; MDepartRecv 1] = Some s /\
+    nth_error (mu_calls s) 1 = Some c /\ m_pc c = MRet MLeft /\
+    run (muc_step true) muc_init lost_depart_trace = None.
+Proof. eexists. eexists. split; [vm_compute; reflexivity|]. repeat split. Qed.
 
-(* the notification is lost only when no Leave call is in its select *)
-Lemma muc_depart_lost_only_without_waiter s s' :
-  muc_step s MDepartLost = Some s' -> forall i c, nth_error (mu_calls s) i = Some c -> waiting_leave c = false.
+(* ---- the code never loses the notification (fx = true) ---- *)
+
+Definition noleft (s : mucstate) : Prop :=
+  forall i c, nth_error (mu_calls s) i = Some c -> m_pc c <> MRet MLeft.
+
+(* the room's unavailable presence has been handled completely *)
+Definition settled (s : mucstate) : Prop := mu_gone s = true /\ mu_h s <> MHUnavail.
+
+(* a Leave call that started after the departure was handled *)
+Definition late_leave (s : mucstate) : Prop :=
+  exists j c, nth_error (mu_calls s) j = Some c /\ m_kind c = MLeave /\ m_pre c = false.
+
+(* there is exactly one notification, and it is in exactly one place *)
+Inductive tok_state (s : mucstate) : Prop :=
+| TPending : ~ settled s -> mu_dtok s = false -> noleft s -> mu_drained s = 0 -> tok_state s
+| TKept : settled s -> mu_dtok s = true -> noleft s -> mu_drained s = 0 -> tok_state s
+| TLeft l c : settled s -> mu_dtok s = false -> mu_drained s = 0 ->
+    nth_error (mu_calls s) l = Some c -> m_pc c = MRet MLeft -> m_kind c = MLeave ->
+    (forall j c', nth_error (mu_calls s) j = Some c' -> m_pc c' = MRet MLeft -> j = l) -> tok_state s
+| TDrained : settled s -> mu_dtok s = false -> noleft s -> mu_drained s = 1 -> late_leave s -> tok_state s.
+
+Definition TokInv (s : mucstate) : Prop := MucInv true s /\ mu_lost s = 0 /\ tok_state s.
+
+Lemma TokInv_init : TokInv muc_init.
 Proof.
-  intros H i c Hi. cbn [muc_step] in H. destruct (mu_h s); try discriminate.
-  destruct (existsb waiting_leave (mu_calls s)) eqn:Ex; [discriminate|].
-  destruct (waiting_leave c) eqn:Ew; [|reflexivity].
-  assert (existsb waiting_leave (mu_calls s) = true).
-  { apply existsb_exists. exists c. split; [eapply nth_error_In; eauto|exact Ew]. }
-  congruence.
+  split; [apply MucInv_init|]. split; [reflexivity|].
+  apply TPending; cbn; auto.
+  - intros [A _]. discriminate.
+  - intros i c H. destruct (nth_nil _ _ H).
+Qed.
+
+Lemma noleft_step s l s' :
+  muc_step true s l = Some s' -> noleft s -> (forall i, l <> MDepartTo i /\ l <> MDepartRecv i) -> noleft s'.
+Proof.
+  intros H N L i c' Hi Hp. destruct (left_origin true s l s' i c' H Hi Hp) as [[c [Hc Hl]]|[E|E]].
+  - exact (N i c Hc Hl).
+  - exact (proj1 (L i) E).
+  - exact (proj2 (L i) E).
+Qed.
+
+Lemma late_leave_step s l s' : muc_step true s l = Some s' -> late_leave s -> late_leave s'.
+Proof.
+  intros H (j & c & Hj & K & P). destruct (muc_step_succ true s l s' j c H Hj) as [c' [Hc ((K' & P') & _)]].
+  exists j, c'. repeat split; congruence.
+Qed.
+
+(* a step that is neither the handling of the unavailable presence nor a take *)
+Lemma tok_frame s l s' :
+  muc_step true s l = Some s' -> tok_state s ->
+  (forall i, l <> MDepartTo i /\ l <> MDepartRecv i) ->
+  (settled s' <-> settled s) -> mu_dtok s' = mu_dtok s -> mu_drained s' = mu_drained s ->
+  tok_state s'.
+Proof.
+  intros H T L Es Et Ed. destruct T as [A B C D|A B C D|l0 c A B D Hl Hp Hk U|A B C D E].
+  - apply TPending; try congruence; [tauto|eapply noleft_step; eauto].
+  - apply TKept; try congruence; [tauto|eapply noleft_step; eauto].
+  - destruct (left_persist true s l s' l0 c H Hl Hp) as [c' [Hc [Hp' Hk']]].
+    apply (TLeft s' l0 c'); try congruence; [tauto|].
+    intros j c2 Hj Hp2. destruct (left_origin true s l s' j c2 H Hj Hp2) as [[c3 [Hc3 Hl3]]|[E|E]].
+    + exact (U j c3 Hc3 Hl3).
+    + destruct (proj1 (L j) E).
+    + destruct (proj2 (L j) E).
+  - apply TDrained; try congruence; [tauto|eapply noleft_step; eauto|eapply late_leave_step; eauto].
+Qed.
+
+Lemma tok_take s l s' i :
+  muc_step true s l = Some s' -> l = MDepartTo i \/ l = MDepartRecv i ->
+  noleft s -> settled s' -> mu_dtok s' = false -> mu_drained s' = 0 -> tok_state s'.
+Proof.
+  intros H L N A B D. destruct (depart_step_calls true s l s' i H L) as [x [Hx [Hw Ec]]].
+  assert (Hk : m_kind x = MLeave) by (unfold waiting_leave in Hw; destruct (m_kind x); [discriminate|reflexivity]).
+  apply (TLeft s' i (set_mpc x (MRet MLeft))); auto.
+  - rewrite Ec. eapply nth_upd_eq; eauto.
+  - intros j c2 Hj Hp2. destruct (left_origin true s l s' j c2 H Hj Hp2) as [[c3 [Hc3 Hl3]]|[E|E]].
+    + destruct (N j c3 Hc3 Hl3).
+    + destruct L as [L|L]; congruence.
+    + destruct L as [L|L]; congruence.
+Qed.
+
+Theorem TokInv_step s l s' : TokInv s -> muc_step true s l = Some s' -> TokInv s'.
+Proof.
+  intros (I & Lo & T) H.
+  pose proof (muc_step_fields true s l s' H) as F.
+  pose proof (MucInv_step true s l s' I H) as I'.
+  assert (Frame : (forall i, l <> MDepartTo i /\ l <> MDepartRecv i) ->
+                  mu_gone s' = mu_gone s -> (mu_h s' = MHUnavail <-> mu_h s = MHUnavail) ->
+                  (settled s' <-> settled s)).
+  { intros _ Eg Eh. unfold settled. rewrite Eg. tauto. }
+  split; [exact I'|].
+  destruct l; decompose [and] F; clear F;
+    try (split; [congruence|];
+         apply (tok_frame s _ s' H T); [intros; split; discriminate|apply Frame; [intros; split; discriminate|congruence|tauto]|congruence|congruence]).
+  - (* MStartLeave *)
+    split; [congruence|].
+    assert (Es : settled s' <-> settled s) by (unfold settled; replace (mu_gone s') with (mu_gone s) by congruence; replace (mu_h s') with (mu_h s) by congruence; tauto).
+    pose proof (startleave_calls true s s' H) as Ec.
+    destruct (mu_dtok s) eqn:Et.
+    + destruct T as [A B C D|A B C D|l0 c A B D Hl Hp Hk U|A B C D E]; try congruence.
+      apply TDrained; try tauto; try congruence.
+      * eapply noleft_step; eauto. intros; split; discriminate.
+      * exists (length (mu_calls s)). eexists. rewrite Ec. split.
+        -- rewrite nth_error_app2 by apply Nat.le_refl. rewrite Nat.sub_diag. reflexivity.
+        -- cbn. split; [reflexivity|]. destruct A as [A _]. rewrite A. reflexivity.
+    + apply (tok_frame s _ s' H T); [intros; split; discriminate|exact Es|congruence|congruence].
+  - (* MUnavailArrive *)
+    split; [congruence|].
+    destruct T as [A B C D|[A _] B C D|l0 c [A _] B D Hl Hp Hk U|[A _] B C D E]; try congruence.
+    apply TPending; try congruence.
+    + intros [_ X]. congruence.
+    + eapply noleft_step; eauto. intros; split; discriminate.
+  - (* MDepartTo *)
+    split; [congruence|].
+    assert (Ns : ~ settled s) by (intros [_ X]; congruence).
+    destruct T as [A B C D|A B C D|l0 c A B D Hl Hp Hk U|A B C D E]; try tauto.
+    eapply (tok_take s _ s' _ H); [left; reflexivity|..]; auto; try congruence.
+    split; [replace (mu_gone s') with (mu_gone s) by congruence; apply (mi_unavail _ _ I); assumption|congruence].
+  - (* MDepartKept *)
+    split; [congruence|].
+    assert (Ns : ~ settled s) by (intros [_ X]; congruence).
+    destruct T as [A B C D|A B C D|l0 c A B D Hl Hp Hk U|A B C D E]; try tauto.
+    apply TKept; try congruence.
+    + split; [replace (mu_gone s') with (mu_gone s) by congruence; apply (mi_unavail _ _ I); assumption|congruence].
+    + eapply noleft_step; eauto. intros; split; discriminate.
+  - (* MDepartLost: not enabled, the buffer is empty while the presence is being handled *)
+    exfalso. assert (Ns : ~ settled s) by (intros [_ X]; congruence).
+    destruct T as [A B C D|A B C D|l0 c A B D Hl Hp Hk U|A B C D E]; try tauto.
+    match goal with X : true = true -> mu_dtok s = true |- _ => rewrite (X eq_refl) in B end. discriminate.
+  - (* MDepartRecv *)
+    split; [congruence|].
+    destruct T as [A B C D|A B C D|l0 c A B D Hl Hp Hk U|A B C D E]; try congruence.
+    eapply (tok_take s _ s' _ H); [right; reflexivity|..]; auto; try congruence.
+    destruct A as [A1 A2]. split; congruence.
+Qed.
+
+Theorem TokInv_run tr s : run (muc_step true) muc_init tr = Some s -> TokInv s.
+Proof.
+  apply (invariant_run _ _ (muc_step true) TokInv muc_init TokInv_init).
+  intros s0 l s1 I H. exact (TokInv_step s0 l s1 I H).
+Qed.
+
+Lemma muc_never_lost_run tr s : run (muc_step true) muc_init tr = Some s -> mu_lost s = 0.
+Proof. intro R. apply (TokInv_run tr s R). Qed.
+
+(* Once the room's unavailable presence has been handled, the notification is
+   buffered (any Leave call in its select can take it), or exactly one Leave
+   call has returned with it, or a Leave call that started afterwards discarded
+   it as stale. *)
+Lemma muc_leave_run tr s :
+  run (muc_step true) muc_init tr = Some s -> settled s ->
+  (mu_dtok s = true /\ noleft s) \/
+  (exists l c, nth_error (mu_calls s) l = Some c /\ m_pc c = MRet MLeft /\ m_kind c = MLeave /\
+               forall j c', nth_error (mu_calls s) j = Some c' -> m_pc c' = MRet MLeft -> j = l) \/
+  (mu_drained s = 1 /\ late_leave s).
+Proof.
+  intros R St. destruct (TokInv_run tr s R) as (_ & _ & T).
+  destruct T as [A B C D|A B C D|l0 c A B D Hl Hp Hk U|A B C D E]; [tauto|auto| |auto].
+  right. left. exists l0, c. auto.
+Qed.
+
+(* with a single Leave call, started before the departure: it has returned, or
+   the notification waits for it *)
+Lemma muc_single_leave_run tr s c :
+  run (muc_step true) muc_init tr = Some s -> settled s ->
+  length (mu_calls s) = 2 -> nth_error (mu_calls s) 1 = Some c -> m_pre c = true ->
+  m_pc c = MRet MLeft \/ mu_dtok s = true.
+Proof.
+  intros R St Len Hc Hp. destruct (muc_leave_run tr s R St) as [[A _]|[[l [c' [Hl [Hpc [Hk _]]]]]|[_ (j & c2 & Hj & Hk & Hpre)]]].
+  - right. exact A.
+  - left. destruct (TokInv_run tr s R) as (I & _).
+    destruct l as [|[|l]].
+    + rewrite (mi_head _ _ I c' Hl) in Hk. discriminate.
+    + congruence.
+    + assert (nth_error (mu_calls s) (S (S l)) = None) by (apply nth_error_None; lia). congruence.
+  - exfalso. destruct (TokInv_run tr s R) as (I & _).
+    destruct j as [|[|j]].
+    + rewrite (mi_head _ _ I c2 Hj) in Hk. discriminate.
+    + congruence.
+    + assert (nth_error (mu_calls s) (S (S j)) = None) by (apply nth_error_None; lia). congruence.
+Qed.
+
+Lemma muc_depart_recv_enabled s l c :
+  nth_error (mu_calls s) l = Some c -> waiting_leave c = true -> mu_dtok s = true ->
+  muc_step true s (MDepartRecv l) <> None.
+Proof. intros Hl Hw Ht. cbn [muc_step]. rewrite Hl, Hw, Ht. discriminate. Qed.
+
+(* the notification is taken away from a waiting call only by a second,
+   overlapping Leave call that starts after the departure was handled *)
+Definition drained_trace : list muclabel :=
+  [MStartJoin; MEnter 0; MAvailArrive; MTake; MJoinRecv 0; MStartLeave; MUnavailArrive; MDepartKept;
+   MStartLeave; MEnter 1; MEnter 2].
+
+Lemma muc_drained_by_later_leave :
+  exists s, run (muc_step true) muc_init drained_trace = Some s /\ leave_stuck s 1 /\ leave_stuck s 2 /\
+    mu_drained s = 1 /\
+    forall tr s', ~ In (MCancel 1) tr -> ~ In (MErrReply 1) tr -> run (muc_step true) s tr = Some s' ->
+      exists c, nth_error (mu_calls s') 1 = Some c /\ m_pc c = MWait.
+Proof.
+  eexists. split; [vm_compute; reflexivity|].
+  assert (St : forall i, i = 1 \/ i = 2 ->
+    leave_stuck (mkmuc [mkmcall MJoin false (MRet MJoined) false true; mkmcall MLeave false MWait false true;
+                        mkmcall MLeave false MWait false false] None MHIdle 0 0 true false 1) i).
+  { intros i [->| ->]; repeat split; eexists; (split; [reflexivity|]); repeat split. }
+  split; [apply St; auto|]. split; [apply St; auto|]. split; [reflexivity|].
+  intros tr s' N1 N2 R.
+  destruct (leave_stuck_run true tr _ s' 1 (St 1 (or_introl eq_refl)) N1 N2 R) as (_ & _ & _ & c & Hc & _ & Hp & _). eauto.
 Qed.
